@@ -317,9 +317,14 @@ def chunk_job(job):
     from toasty.pyramid import PyramidIO, Pos
     from toasty.samplers import ChunkedPlateCarreeSampler, plate_carree_planet_sampler
 
-    (w, h, gx, gy, depth) = job
+    (w, h, gx, gy, depth) = job[:5]
+    # how the per-chunk (filter, sampler) pairs are obtained and used: "in-turn" = the textbook loop; "prepared" = every
+    # pair obtained first, then sampled in turn; "prepared-reversed" = obtained first, sampled last chunk first
+    order = job[5] if len(job) > 5 else "in-turn"
     part = Part()
     cfg = {"map": (w, h), "grid": (gx, gy), "depth": depth}
+    if order != "in-turn":
+        cfg["order"] = order
 
     def bad(clause, detail):
         part.violation("chunks/%s" % clause, "%r: %s" % (cfg, detail), cfg)
@@ -335,7 +340,7 @@ def chunk_job(job):
         bad("constructor-raises:%s" % type(e).__name__, repr(e))
         return part
     # filter soundness per chunk
-    for ic in range(cm.n_chunks):
+    for ic in range(cm.n_chunks if order == "in-turn" else 0):
         cx, cy, cw, ch = cm.chunk_spec(ic)
         box = (TWOPI * cx / w - np.pi, TWOPI * (cx + cw) / w - np.pi, np.pi / 2 - np.pi * (cy + ch) / h, np.pi / 2 - np.pi * cy / h)
         flt = sampler.filter(ic)
@@ -356,8 +361,13 @@ def chunk_job(job):
         pb = PyramidIO(os.path.join(d, "whole"), default_format="png")
         try:
             with quiet():
-                for ic in range(cm.n_chunks):
-                    toast.sample_layer_filtered(pa, sampler.filter(ic), sampler.sampler(ic), depth, coordsys=cs, parallel=1)
+                if order == "in-turn":
+                    for ic in range(cm.n_chunks):
+                        toast.sample_layer_filtered(pa, sampler.filter(ic), sampler.sampler(ic), depth, coordsys=cs, parallel=1)
+                else:
+                    pairs = [(sampler.filter(ic), sampler.sampler(ic)) for ic in range(cm.n_chunks)]
+                    for flt_i, smp_i in (pairs if order == "prepared" else pairs[::-1]):
+                        toast.sample_layer_filtered(pa, flt_i, smp_i, depth, coordsys=cs, parallel=1)
                 toast.sample_layer(pb, plate_carree_planet_sampler(data), depth, coordsys=cs, parallel=1)
         except Exception as e:
             bad("sampling-raises:%s" % type(e).__name__, repr(e))
@@ -528,6 +538,8 @@ def run(tier, seed):
         chunks += [(96, 48, 4, 4, 2), (50, 26, 3, 3, 3), (17, 9, 4, 4, 2)]
     for c in chunks:
         jobs.append(("chunk", c))
+    for c, order in [((16, 8, 2, 1, 1), "prepared"), ((24, 12, 2, 2, 2), "prepared-reversed"), ((15, 9, 5, 3, 2), "prepared")] + ([((12, 10, 4, 2, 3), "prepared"), ((9, 6, 3, 3, 3), "prepared-reversed")] if tier == "thorough" else []):
+        jobs.append(("chunk", c + (order,)))
     e2e = [(40, 30, 0.5, 30.0, 1, (0.0, 10.0), 3, False), (16, 16, 0.6, 45.0, -1, (180.0, 85.0), 3, False), (15, 15, 0.6, 0.0, 1, (40.0, -20.0), 3, True)]
     if tier == "thorough":
         e2e += [(64, 64, 0.3, 200.0, 1, (359.9, 60.0), 4, False), (3, 40, 0.6, 90.0, -1, (100.0, 0.0), 4, True), (2, 2, 0.6, 30.0, 1, (0.0, 0.0), 4, False)]
@@ -553,7 +565,7 @@ def replay(payload):
     if "box" in r:
         p = box_job(([tuple(r["box"])], 3, r["coordsys"] == "planetary"))
     elif "grid" in r:
-        p = chunk_job((r["map"][0], r["map"][1], r["grid"][0], r["grid"][1], r["depth"]))
+        p = chunk_job((r["map"][0], r["map"][1], r["grid"][0], r["grid"][1], r["depth"]) + ((r["order"],) if r.get("order") else ()))
     elif "depth" in r:
         p = e2e_job((r["image"][0], r["image"][1], r["scale_deg"], r["rotation"], r["parity"], tuple(r["center"]), r["depth"], r["coordsys"] == "planetary", r.get("entry") == "Builder.toast_base", r.get("format", "npy"), r.get("values", "positive")))
     else:
